@@ -363,6 +363,10 @@ def comp_line(c: dict) -> str:
         return f"comp {w} shared {esc(c['agent'])}"
     if k == "actionpenalty":
         return f"comp {w} actionpenalty {tok(c['ap'])} {tok(c['dn'])}"
+    if k == "unknown":
+        return f"comp {w} unknown {esc(c['type'])}"
+    if k == "invalid":
+        return f"comp {w} invalid"
     raise ValueError(k)
 
 
@@ -413,13 +417,22 @@ def model_lines(case: dict, capture: dict) -> List[str]:
             lines.append("truthcheck")
         lines.append("step")
         lines.append("mem")
+        lines.append("info")
         if stp.get("reset_after"):
+            if "new_agents" in stp:  # an episode schedule: the next episode is built from another configuration
+                lines.append("newconfig")
+                for ins, obs in stp.get("new_setorders", []):
+                    lines.append(f"setorder {lst(esc(x) for x in ins)} {lst(esc(x) for x in obs)}")
+                for a in stp["new_agents"]:
+                    lines.append(f"agent {esc(a['ref'])}")
+                    for c in a["comps"]:
+                        lines.append(comp_line(c))
             lines.append("envreset")
     lines.append("locs")
     return lines
 
 
-ANSWER_OPS = ("graph", "load", "step", "mem", "envreset", "locs", "fingerprint", "access", "restricted", "truthcheck")
+ANSWER_OPS = ("graph", "load", "step", "mem", "info", "envreset", "locs", "fingerprint", "access", "restricted", "truthcheck")
 
 
 def answer_mask(lines: List[str]) -> List[bool]:
@@ -432,8 +445,20 @@ def answer_kinds(lines: List[str]) -> List[str]:
 
 
 # ------------------------------------------------------------------------------------------ implementation side
+INVALID_VARIANTS = ["no-type", "weight-not-a-number", "extra-key", "missing-option", "option-not-a-number", "shared-without-agent"]
+
+
 def comp_cfg(c: dict) -> dict:
     k = c["kind"]
+    if k == "unknown":  # a type that is not registered (misspelt, or a plugin that was not imported)
+        return {"type": c["type"], "weight": dbl(c["weight"] or "1")}
+    if k == "invalid":  # a registered type whose entry violates its schema
+        return {"no-type": {"weight": 1.0},
+                "weight-not-a-number": {"type": "dummy", "weight": "abc"},
+                "extra-key": {"type": "dummy", "wieght": 1.0},
+                "missing-option": {"type": "database-file-integrity", "weight": 1.0, "options": {"node_hostname": "x"}},
+                "option-not-a-number": {"type": "action-penalty", "weight": 1.0, "options": {"action_penalty": "x"}},
+                "shared-without-agent": {"type": "shared-reward", "weight": 1.0}}[c["variant"]]
     opts: Dict[str, Any] = {}
     if k == "file":
         opts = {"node_hostname": c["node"], "folder_name": c["folder"], "file_name": c["file"]}
@@ -528,6 +553,12 @@ def show_mem(game) -> str:
                 ms.append("_")
         out.append(f"{esc(k)}=" + ":".join(ms))
     return ",".join(out)
+
+
+def show_info(game) -> str:
+    """Fingerprint of `reward_info` of every agent's newest history item (what `update_reward` left there)."""
+    return ",".join(f"{esc(k)}=" + (str(fingerprint_words(pyval_words(a.history[-1].reward_info))) if a.history else "-")
+                    for k, a in game.agents.items())
 
 
 def show_locs(game) -> str:
@@ -696,6 +727,10 @@ class StepCheck:
                     self._bad(f"fresh game: agent {ref} starts with total_reward {ag.reward_function.total_reward!r}, "
                               f"current_reward {ag.reward_function.current_reward!r}, {len(ag.history)} history items")
 
+    def reconfigure(self, agents: List[dict]):
+        """The next episode runs another configuration (episode schedule)."""
+        self.desc = surviving(agents)
+
     def episode_end(self, game):
         """Before a reset: the episode total of every agent is the sum of the step rewards of THIS episode."""
         if game is None:
@@ -838,6 +873,8 @@ def run_impl(case: dict) -> Tuple[List[str], dict]:
         except KeyError:
             return None, "raised keyError"
         except Exception as e:  # anything else is reported verbatim and will not match the model
+            if type(e).__name__ == "ValidationError":
+                return None, "raised validationError"
             return None, f"raised other:{type(e).__name__}"
     with GraphTap() as tap, CalcTap() as ctap:
         game, ans = load()
@@ -854,7 +891,7 @@ def run_impl(case: dict) -> Tuple[List[str], dict]:
         ctap.last.clear()
         for k, stp in enumerate(case["steps"]):
             if game is None:
-                out += ["no-game", "no-game"]
+                out += ["no-game", "no-game", "no-game"]
             else:
                 try:
                     for ref, agent in game.agents.items():
@@ -867,9 +904,10 @@ def run_impl(case: dict) -> Tuple[List[str], dict]:
                     game.update_agents(state_dict(stp["state"]))
                     out.append("ok " + show_agents(game))
                     out.append(show_mem(game))
+                    out.append(show_info(game))
                     check.after_step(game, ctap, k + 1)
                 except tuple(EXC_KIND) as e:
-                    out += ["raised " + EXC_KIND[type(e)], "no-game"]
+                    out += ["raised " + EXC_KIND[type(e)], "no-game", "no-game"]
                     game = None
             if stp.get("reset_after"):
                 # what PrimaiteGymEnv.reset does to the reward layer: a fresh game from the same configuration, then update_agents
@@ -923,6 +961,11 @@ def oracle_all(case: dict, impl: List[str], capture: dict) -> List[str]:
     graph = declared_graph(agents)
     real = capture.get("graph")
     first = impl[0]
+    bad = [c["kind"] for a in agents for c in a["comps"] if c["kind"] in ("unknown", "invalid")]
+    if bad:  # an unregistered / ill-formed component: the game must not load (and nothing else is judged)
+        if first not in ("raised keyError", "raised validationError"):
+            out.append(f"bad component accepted: a configuration with {bad} components was not refused at load: {first}")
+        return out
     if real is None:
         if not first.startswith("raised other"):
             out.append("sharing graph: setup_reward_sharing never called graph_has_cycle")
@@ -1067,6 +1110,7 @@ ENV_WEIGHTS = ["1", "1/2", "1/4", "3/4", "-1/2", "2", "1/8", "3/8"]
 TYPE_KIND = {v: k for k, v in KIND_TYPE.items()}
 
 
+ENV_SCHEDULES = ["scenario_with_placeholders", "mini_scenario_with_simulation_variation", "uc7_multiple_attack_variants"]
 ENV_SHIPPED = ["data_manipulation", "uc7_config", "uc7_config_tap003", "action_penalty", "basic_switched_network",
                "fixing_duration_one_item", "nodes_with_initial_files", "shared_rewards", "software_fixing_duration",
                "test_application_install", "test_primaite_session", "data_manipulation_marl", "multi_agent_session"]
@@ -1107,6 +1151,12 @@ def _env_cfg(case: dict):
         cfg = yaml.safe_load((SRC / "config" / "_package_data" / "data_manipulation.yaml").read_text())
     elif src.startswith("shipped:"):
         cfg = scen.load_cfg(scen.shipped()[src.split(":", 1)[1]])
+    elif src.startswith("sched:"):
+        # a shipped episode SCHEDULE (a directory with schedule.yaml): the environment is given the directory as it is, the
+        # configuration of every episode comes from the real EpisodeListScheduler
+        from primaite.session.episode_schedule import build_scheduler
+        path = SRC / "config" / "_package_data" / src.split(":", 1)[1]
+        return str(path), agents_desc(build_scheduler(path)(0))
     elif src.startswith("gen:"):
         from harness.gen.scenario import gen_scenario
         _g, fam, size = src.split(":")
@@ -1144,11 +1194,16 @@ def _env_cfg(case: dict):
         if early and a.get("type") == "red-database-corrupting-agent" and isinstance(st, dict) and "start_step" in st:
             st["start_step"], st["frequency"], st["variance"] = rng.range(2, 8), rng.range(3, 8), rng.range(0, 1)
     cfg["agents"] = rng.shuffle(cfg["agents"])
+    return cfg, agents_desc(cfg)
+
+
+def agents_desc(cfg: dict) -> List[dict]:
+    """The agents of a configuration with their reward components, as the `game` family describes them."""
     agents = []
     rat = lambda x: show(Fraction(float(x)))  # noqa: E731
     for a in cfg["agents"]:
         comps = []
-        for c in a.get("reward_function", {}).get("reward_components", []):
+        for c in (a.get("reward_function") or {}).get("reward_components", []) or []:
             o = c.get("options") or {}
             if c["type"] not in TYPE_KIND:
                 raise ValueError(f"reward component type {c['type']} is not modelled")
@@ -1166,7 +1221,7 @@ def _env_cfg(case: dict):
                 d.update(ap=rat(o.get("action_penalty", -1.0)), dn=rat(o.get("do_nothing_penalty", 0.0)))
             comps.append(d)
         agents.append({"ref": a["ref"], "comps": comps})
-    return cfg, agents
+    return agents
 
 
 def _dyadic(sv: Optional[str]) -> bool:
@@ -1369,6 +1424,7 @@ def run_env(case: dict) -> Tuple[List[str], dict]:
     from primaite.session.environment import PrimaiteGymEnv
     import logging
     cfg, agents = _env_cfg(case)
+    first_agents = agents
     logging.disable(logging.CRITICAL)
     random.seed(case["seed"])
     np.random.seed(case["seed"] % (1 << 31))
@@ -1394,7 +1450,8 @@ def run_env(case: dict) -> Tuple[List[str], dict]:
     live = LiveOracle()
     hostnames = {c["node"] for a in agents for c in a["comps"] if "node" in c}
     n_comps = sum(len(a["comps"]) for a in surviving(agents).values())
-    n_proxies = sum(1 for a in cfg["agents"] if a.get("type") == "proxy-agent")
+    scheduled = isinstance(cfg, str)
+    n_proxies = 1 if scheduled else sum(1 for a in cfg["agents"] if a.get("type") == "proxy-agent")
     arng = Rng(case["seed"] + 17)
     reset_at = set(case.get("reset_at", []))
     full_at = set(case.get("full_state_at", [1]))
@@ -1451,6 +1508,7 @@ def run_env(case: dict) -> Tuple[List[str], dict]:
                                            "restrict": paths, "from": f"{case.get('source')} step {k + 1}"})
                 out.append("ok " + show_agents(game))
                 out.append(show_mem(game))
+                out.append(show_info(game))
                 check.after_step(game, ctap, k + 1)
                 if (k + 1) in reset_at and env is not None:
                     # end of an episode: the environment's record of the episode total, then a new game
@@ -1469,6 +1527,14 @@ def run_env(case: dict) -> Tuple[List[str], dict]:
                                    f"but the agent's total at the end of that episode was {before!r}")
                     game = env.game
                     stp["reset_after"] = True
+                    if scheduled:  # the next episode has its own configuration: agents, components, sharing graph
+                        agents = agents_desc(env.episode_scheduler(env.episode_counter))
+                        stp["new_agents"] = agents
+                        g2 = tap.graphs[-1]
+                        stp["new_setorders"] = [(ins, list(g2[ref])) for ref, ins in declared_graph(agents).items() if ref in g2]
+                        check.reconfigure(agents)
+                        hostnames = {c["node"] for a in agents for c in a["comps"] if "node" in c}
+                        n_comps = sum(len(a["comps"]) for a in surviving(agents).values())
                     out.append("ok order=" + ",".join(esc(x) for x in game._reward_calculation_order) + " " + show_agents(game))
                     check.after_reset(game)
                     live.mem.clear()
@@ -1498,7 +1564,7 @@ def run_env(case: dict) -> Tuple[List[str], dict]:
     exact = case.get("weights", "dyadic") == "dyadic" \
         and all(_dyadic(c.get(f)) for a in agents for c in a["comps"] for f in ("weight", "ap", "dn") if f in c) \
         and all(len(cl) in (0, 1, 2, 4, 8, 16, 32) for st in steps for cl in code_lists(st["dict"]))
-    capture["observed"] = {"agents": agents, "steps": steps, "exact": exact}
+    capture["observed"] = {"agents": first_agents, "steps": steps, "exact": exact and not scheduled}
     capture["bounds"] = check.bounds
     capture["step_problems"] = list(check.problems.values())
     return out, capture
